@@ -173,7 +173,9 @@ def run(ctx):
     pscs, _r = progcheck.tlc_scenarios(ctx, "PackageOnly", c04.cfg("single"), "c15_effect_pkgo")
     rep = progcheck.Replay(ctx, {"PKGO"})
     pitems = []
-    for i, sc in enumerate(progcheck.sample(pscs, 400 if thorough else 150, ctx.seed)):
+    # references to the un-annotated neighbours of annotated items (a function that shares its name with an annotated method) always take part
+    plain = [sc for sc in pscs if sc["files"] == [["plain"]]]
+    for i, sc in enumerate(progcheck.sample(pscs, 400 if thorough else 150, ctx.seed) + plain):
         prog, exp, _tags = gen_tonl.build_pkgo(sc, "C15_eff_pkgo_%d" % i)
         pitems.append((prog, exp, {"al": sc["al"], "pkg": sc["pkg"], "files": sc["files"]}))
     rep.check(pitems)
